@@ -85,65 +85,348 @@ theorem map_coherent {o : Ops σ β} (hp : PeekNext o) (f : β → γ) {s : σ} 
 
 /-! ### lazy_filter -/
 
-theorem filterLoop_of_unfolds {next : σ → Option (β × σ)} (p : β → Bool) {s : σ} {l : List β}
-    (h : Unfolds next s l) : ∀ fuel, l.length ≤ fuel →
-      (match l.dropWhile (fun x => !p x) with
-       | [] => filterLoop next p fuel s = some none
-       | v :: rest => ∃ s', filterLoop next p fuel s = some (some (v, s')) ∧ Unfolds next s' rest) := by
+/-- with enough fuel the loop of `FilteredStream::next` does not depend on the fuel -/
+theorem filterLoop_fuel_irrel {next : σ → Option (β × σ)} (p : β → Bool) {s : σ} {l : List β}
+    (h : Unfolds next s l) : ∀ f1 f2, l.length ≤ f1 → l.length ≤ f2 →
+      filterLoop next p f1 s = filterLoop next p f2 s := by
   induction h with
-  | done h => intro fuel _; unfold filterLoop; simp [h]
+  | done h => intro f1 f2 _ _; unfold filterLoop; simp [h]
   | @step s v s' l h t ih =>
-    intro fuel hf
+    intro f1 f2 h1 h2
     unfold filterLoop
     simp only [h]
     cases hv : p v with
-    | true => simp [List.dropWhile, hv]; exact t
+    | true => simp
     | false =>
-      cases fuel with
-      | zero => simp at hf
-      | succ fuel =>
-        have := ih fuel (by simpa using hf)
-        simpa [List.dropWhile, hv] using this
-
-theorem filter_dropWhile {α} (p : α → Bool) (l : List α) :
-    (l.dropWhile fun x => !p x).filter p = l.filter p := by
-  induction l with
-  | nil => rfl
-  | cons x xs ih =>
-    cases hx : p x with
-    | true => simp [List.dropWhile, hx]
-    | false => simp [List.dropWhile, hx, ih]
+      cases f1 with
+      | zero => simp at h1
+      | succ f1 =>
+        cases f2 with
+        | zero => simp at h2
+        | succ f2 => simpa using ih f1 f2 (by simpa using h1) (by simpa using h2)
 
 theorem filter_unfoldsB {o : Ops σ β} (p : β → Bool) {s : σ} {l : List β} (h : UnfoldsB o s l) :
     UnfoldsB (filterOps o p) s (l.filter p) := by
-  -- strong induction on the length of `l`: one step of the filter consumes a non-empty prefix
-  generalize hn : l.length = n
-  induction n using Nat.strongRecOn generalizing s l with
-  | _ n ih =>
-    obtain ⟨b, hb1, hb2⟩ := h.bound
-    have hloop := filterLoop_of_unfolds p h.unfolds b hb2
-    have hnext : (filterOps o p).next s = filterNext o p s := rfl
-    have hbound : (filterOps o p).bound s = o.bound s := rfl
-    cases hd : l.dropWhile (fun x => !p x) with
-    | nil =>
-      rw [hd] at hloop
-      have hf : l.filter p = [] := by rw [← filter_dropWhile, hd]; rfl
-      rw [hf]
-      refine .done ?_ ⟨b, by rw [hbound, hb1]⟩
-      rw [hnext]; simp [filterNext, hb1, fuelOf, hloop]
-    | cons v rest =>
-      rw [hd] at hloop
-      obtain ⟨s', hl, hu'⟩ := hloop
-      have hpv : p v = true := by
-        have := List.head_dropWhile_not (fun x => !p x) l (by rw [hd]; simp)
-        simpa [hd] using this
-      have hf : l.filter p = v :: rest.filter p := by
-        rw [← filter_dropWhile, hd, List.filter_cons_of_pos hpv]
-      -- the inner stream from `s'` is a suffix of the inner stream from `s`
-      have hsuf : ∃ k, rest = l.drop (k + 1) ∧ s' = dropN o.next (k + 1) s := by
-        sorry
-      sorry
+  induction h with
+  | @done s h hb =>
+    obtain ⟨b, hb⟩ := hb
+    refine .done ?_ ⟨b, hb⟩
+    show filterNext o p s = none
+    unfold filterNext filterLoop
+    simp [h]
+  | @step s v s' l h hb t ih =>
+    obtain ⟨b, hb1, hb2⟩ := hb
+    have hlen : (List.filter p (v :: l)).length ≤ b :=
+      Nat.le_trans (List.length_filter_le _ _) hb2
+    cases hv : p v with
+    | true =>
+      rw [List.filter_cons_of_pos hv]
+      refine .step ?_ ⟨b, hb1, by rw [← List.filter_cons_of_pos hv]; exact hlen⟩ ih
+      show filterNext o p s = some (v, s')
+      unfold filterNext filterLoop
+      simp [h, hv]
+    | false =>
+      have hne : ¬ p v = true := by simp [hv]
+      rw [List.filter_cons_of_neg hne]
+      rw [List.filter_cons_of_neg hne] at hlen
+      -- the filter's `next` at `s` is its `next` at `s'`
+      obtain ⟨b', hb1', hb2'⟩ := t.bound
+      have hb0 : 1 ≤ b := by simp at hb2; omega
+      have hnext : (filterOps o p).next s = (filterOps o p).next s' := by
+        show filterNext o p s = filterNext o p s'
+        unfold filterNext
+        rw [hb1, hb1']
+        simp only [fuelOf, Option.getD_some]
+        obtain ⟨c, rfl⟩ : ∃ c, b = c + 1 := ⟨b - 1, by omega⟩
+        conv => lhs; unfold filterLoop
+        simp only [h, hv]
+        rw [filterLoop_fuel_irrel p t.unfolds c b' (by simp at hb2; omega) hb2']
+        simp
+      generalize List.filter p l = L at ih hlen ⊢
+      cases ih with
+      | done h' _ => exact .done (by rw [hnext]; exact h') ⟨b, hb1⟩
+      | step h' _ t' => exact .step (by rw [hnext]; exact h') ⟨b, hb1, hlen⟩ t'
+
+theorem filter_peekNext (o : Ops σ β) (p : β → Bool) : PeekNext (filterOps o p) := fun _ => rfl
+
+/-- **lazy_filter of a finite stream**: coherent with the filtered list, in every state -/
+theorem filter_coherent {o : Ops σ β} (p : β → Bool) {s : σ} {l : List β}
+    (h : UnfoldsB o s l) : Coherent (filterOps o p) s (l.filter p) :=
+  plain_coherent (fun s => filter_peekNext o p s) (filter_unfoldsB p h)
+
+/-! ### lazy_zip -/
+
+theorem zip_unfoldsB {a : Ops σ β} {b : Ops τ (List β)} {s1 : σ} {l1 : List β}
+    (h1 : UnfoldsB a s1 l1) : ∀ {s2 : τ} {l2 : List (List β)}, UnfoldsB b s2 l2 →
+    UnfoldsB (zipOps a b) (s1, s2) (List.zipWith (· :: ·) l1 l2) := by
+  induction h1 with
+  | @done s1 h hb =>
+    intro s2 l2 h2
+    obtain ⟨b1, hb1⟩ := hb
+    obtain ⟨b2, hb2, _⟩ := h2.bound
+    rw [List.zipWith_nil_left]
+    refine .done ?_ ⟨min b1 b2, ?_⟩
+    · show zipNext a.next b.next (s1, s2) = none
+      simp [zipNext, h]
+    · show zipBound (a.bound s1) (b.bound s2) = _
+      simp [hb1, hb2, zipBound]
+  | @step s1 v s1' l1 h hb t ih =>
+    intro s2 l2 h2
+    obtain ⟨b1, hb1, hb1'⟩ := hb
+    cases h2 with
+    | @done s2 h' hb' =>
+      obtain ⟨b2, hb2⟩ := hb'
+      rw [List.zipWith_nil_right]
+      refine .done ?_ ⟨min b1 b2, ?_⟩
+      · show zipNext a.next b.next (s1, s2) = none
+        simp [zipNext, h, h']
+      · show zipBound (a.bound s1) (b.bound s2) = _
+        simp [hb1, hb2, zipBound]
+    | @step s2 w s2' l2 h' hb' t' =>
+      obtain ⟨b2, hb2, hb2'⟩ := hb'
+      rw [List.zipWith_cons_cons]
+      refine .step ?_ ⟨min b1 b2, ?_, ?_⟩ (ih t')
+      · show zipNext a.next b.next (s1, s2) = _
+        simp [zipNext, h, h']
+      · show zipBound (a.bound s1) (b.bound s2) = _
+        simp [hb1, hb2, zipBound]
+      · simp only [List.length_cons, List.length_zipWith] at hb1' hb2' ⊢
+        omega
+
+theorem zip_peekNext {a : Ops σ β} {b : Ops τ (List β)} (ha : PeekNext a) (hb : PeekNext b) :
+    PeekNext (zipOps a b) := by
+  intro s
+  show (match a.peek s.1, b.peek s.2 with
+    | some x, some xs => some (x :: xs)
+    | _, _ => none) = (zipNext a.next b.next s).map Prod.fst
+  rw [ha s.1, hb s.2]
+  unfold zipNext
+  cases a.next s.1 with
+  | none => rfl
+  | some p1 =>
+    cases b.next s.2 with
+    | none => rfl
+    | some p2 => rfl
+
+/-- **lazy_zip of finite streams**: coherent with the zipped list (the shorter length) -/
+theorem zip_coherent {a : Ops σ β} {b : Ops τ (List β)} (ha : PeekNext a) (hb : PeekNext b)
+    {s1 : σ} {s2 : τ} {l1 : List β} {l2 : List (List β)} (h1 : UnfoldsB a s1 l1)
+    (h2 : UnfoldsB b s2 l2) :
+    Coherent (zipOps a b) (s1, s2) (List.zipWith (· :: ·) l1 l2) :=
+  plain_coherent (fun s => zip_peekNext ha hb s) (zip_unfoldsB h1 h2)
+
+
+/-- `zipOne`: the innermost stream of a zip, yielding one-element argument lists -/
+theorem zipOne_unfoldsB {o : Ops σ β} {s : σ} {l : List β} (h : UnfoldsB o s l) :
+    UnfoldsB (zipOne o) s (l.map fun x => [x]) := map_unfoldsB _ h
+
+/-! ### re-typing the elements (`mapOut`) keeps every override and keeps coherence -/
+
+theorem pyIndex_map (f : β → γ) (l : List β) (i : Int) :
+    pyIndex (l.map f) i = (pyIndex l i).map f := by
+  unfold pyIndex
+  simp only [List.length_map, List.getElem?_map]
+  split
+  · rfl
+  · split <;> rfl
+
+theorem idxRes_map (f : β → γ) (l : List β) (i : Int) :
+    idxRes (l.map f) i = (idxRes l i).map f := by
+  unfold idxRes
+  rw [pyIndex_map]
+  cases pyIndex l i <;> rfl
+
+theorem pySliceSpec_map (f : β → γ) (l : List β) (lo hi : Option Int) :
+    pySliceSpec (l.map f) lo hi = (pySliceSpec l lo hi).map f := by
+  rw [← pySlice_spec, ← pySlice_spec]
+  simp [sliceList, List.map_take, List.map_drop]
+
+theorem mapOut_unfolds {o : Ops σ β} (f : β → γ) {s : σ} {l : List β} (h : Unfolds o.next s l) :
+    Unfolds (mapOut f o).next s (l.map f) := by
+  induction h with
+  | done h => exact .done (by simp [mapOut, mapNext, h])
+  | step h _ ih => exact .step (by simp [mapOut, mapNext, h]) ih
+
+theorem mapOut_coherent {o : Ops σ β} (f : β → γ) {s : σ} {l : List β} (h : Coherent o s l) :
+    Coherent (mapOut f o) s (l.map f) where
+  unfolds := mapOut_unfolds f h.unfolds
+  bound := by simpa [mapOut] using h.bound
+  len := by simpa [mapOut] using h.len
+  force := by simp [mapOut, h.force, R.map, R.bind]
+  peek := by simp [mapOut, h.peek]
+  index := by
+    intro i
+    simp only [mapOut, h.index i, idxRes_map]
+  slice := by
+    intro lo hi
+    obtain ⟨r, hr, hok⟩ := h.slice lo hi
+    cases r with
+    | list l' =>
+      refine ⟨.list (l'.map f), by simp [mapOut, hr, R.map, R.bind], ?_⟩
+      show l'.map f = _
+      rw [pySliceSpec_map]
+      exact congrArg _ hok
+    | strm s' =>
+      refine ⟨.strm s', by simp [mapOut, hr, R.map, R.bind], ?_⟩
+      show Unfolds _ s' _
+      rw [pySliceSpec_map]
+      exact mapOut_unfolds f hok
+  reversed := by simp [mapOut, h.reversed, R.map, R.bind]
+
+theorem mapOut_unfoldsB {o : Ops σ β} (f : β → γ) {s : σ} {l : List β} (h : UnfoldsB o s l) :
+    UnfoldsB (mapOut f o) s (l.map f) := by
+  induction h with
+  | done h hb => exact .done (by simp [mapOut, mapNext, h]) hb
+  | step h hb _ ih =>
+    refine .step (by simp [mapOut, mapNext, h]) ?_ ih
+    simpa [mapOut] using hb
+
+theorem mapOut_peekNext {o : Ops σ β} (hp : PeekNext o) (f : β → γ) : PeekNext (mapOut f o) := by
+  intro s
+  simp only [mapOut, hp s, mapNext]
+  cases o.next s with
+  | none => rfl
+  | some p => rfl
 
 end
+
+/-! ## the finite stream types are hereditarily finite, and their `peek` is their `next` -/
+
+theorem range_peekNext : PeekNext Range.ops := by
+  intro r
+  show Range.peek r = (Range.next r).map Prod.fst
+  unfold Range.peek Range.next
+  split <;> rfl
+
+theorem range_unfoldsB (start e step : Int) (hstep : step ≠ 0) :
+    UnfoldsB Range.ops ⟨start, some e, step⟩ (rangeList start e step) := by
+  have hu : ∀ start, Unfolds Range.next ⟨start, some e, step⟩ (rangeList start e step) := by
+    intro start
+    rcases Int.lt_or_gt_of_ne hstep with hs | hs
+    · exact RangeT.unfolds_neg e step hs _ start rfl
+    · exact RangeT.unfolds_pos e step hs _ start rfl
+  refine unfoldsB_of_family (o := Range.ops) (fun r => r.stop = some e ∧ r.step = step) ?_ ?_ _ _ ⟨rfl, rfl⟩ (hu start)
+  · intro r v r' hf h
+    have h' : Range.next r = some (v, r') := h
+    unfold Range.next at h'
+    split at h'
+    · cases h'
+    · simp only [Option.some.injEq, Prod.mk.injEq] at h'
+      obtain ⟨_, rfl⟩ := h'
+      exact hf
+  · intro r l hf hl
+    obtain ⟨st, stop, sp⟩ := r
+    obtain ⟨h1, h2⟩ := hf
+    simp only at h1 h2
+    subst h1 h2
+    have := Unfolds.functional hl (hu st)
+    subst this
+    refine ⟨rangeCount st e sp, ?_, by rw [RangeT.rangeList_length]; exact Nat.le_refl _⟩
+    show Range.bound ⟨st, some e, sp⟩ = some (rangeCount st e sp)
+    rcases Int.lt_or_gt_of_ne hstep with hs | hs
+    · simp only [Range.bound, hstep, hs, if_true, if_false]
+      rw [RangeT.rangeCount_neg hs]; rfl
+    · have hn : ¬ sp < 0 := by omega
+      simp only [Range.bound, hstep, hn, if_false]
+      rw [RangeT.rangeCount_pos hs]; rfl
+
+theorem wrapped_peekNext {α : Type} : PeekNext (Wrapped.ops (α := α)) := by
+  intro w
+  show Wrapped.peek w = (Wrapped.next w).map Prod.fst
+  unfold Wrapped.peek Wrapped.next
+  split
+  · rfl
+  · cases w.base[w.pos]? <;> rfl
+
+theorem wrapped_unfoldsB {α : Type} (base : List α) (pos : Nat) (h : pos ≤ base.length) :
+    UnfoldsB Wrapped.ops (⟨base, pos⟩ : Wrapped α) (base.drop pos) := by
+  refine unfoldsB_of_family (o := Wrapped.ops) (fun w => w.base = base ∧ w.pos ≤ base.length) ?_ ?_ _ _ ⟨rfl, h⟩
+    (wrapped_unfolds base _ pos rfl h)
+  · intro w v w' hf hn
+    have h' : Wrapped.next w = some (v, w') := hn
+    unfold Wrapped.next at h'
+    split at h'
+    · cases h'
+    · rename_i hlt
+      cases hg : w.base[w.pos]? with
+      | none => simp [hg] at h'
+      | some x =>
+        simp only [hg, Option.some.injEq, Prod.mk.injEq] at h'
+        obtain ⟨_, rfl⟩ := h'
+        obtain ⟨hb, _⟩ := hf
+        refine ⟨hb, ?_⟩
+        simp only
+        rw [← hb]; omega
+  · intro w l hf hl
+    obtain ⟨b, p⟩ := w
+    obtain ⟨rfl, hp⟩ := hf
+    have := Unfolds.functional hl (wrapped_unfolds b _ p rfl hp)
+    subst this
+    exact ⟨b.length - p, rfl, by simp⟩
+
+theorem subseq_peekNext {α : Type} : PeekNext (Subseq.ops (α := α)) := by
+  intro m
+  obtain ⟨base, mask⟩ := m
+  cases mask <;> rfl
+
+theorem subseq_unfoldsB {α : Type} (m : Mask α) : ∃ l, UnfoldsB Subseq.ops m l := by
+  obtain ⟨l, hu, _⟩ := SubseqT.unfolds m
+  refine ⟨l, unfoldsB_of_family (o := Subseq.ops) (fun _ => True) (fun _ _ _ _ _ => trivial) ?_ _ _ trivial hu⟩
+  intro s l' _ hl
+  obtain ⟨l'', hu', hlen⟩ := SubseqT.unfolds s
+  have := Unfolds.functional hl hu'
+  subst this
+  refine ⟨SubseqT.cnt s, ?_, by omega⟩
+  obtain ⟨base, mask⟩ := s
+  cases mask <;> rfl
+
+theorem cpow_peekNext {α : Type} : PeekNext (CPow.ops (α := α)) := by
+  intro c
+  obtain ⟨base, idx⟩ := c
+  cases idx <;> rfl
+
+theorem CPowT.wf_next {α : Type} (c : Idx α) (v : List α) (c' : Idx α) (hw : CPowT.WF c)
+    (h : CPow.next c = some (v, c')) : CPowT.WF c' := by
+  obtain ⟨base, idx⟩ := c
+  cases idx with
+  | none => simp [CPow.next] at h
+  | some w =>
+    simp only [CPow.next, Option.some.injEq, Prod.mk.injEq] at h
+    obtain ⟨_, rfl⟩ := h
+    intro v' hv'
+    simp only at hv'
+    exact ((CPowT.inc_spec base.length w (hw w rfl)).1 v' hv').2.2
+
+theorem cpow_unfoldsB {α : Type} (c : Idx α) (hwf : CPowT.WF c) : ∃ l, UnfoldsB CPow.ops c l := by
+  obtain ⟨l, hu, _⟩ := CPowT.unfolds c hwf
+  refine ⟨l, unfoldsB_of_family (o := CPow.ops) CPowT.WF (fun s v s' hw h => CPowT.wf_next s v s' hw h) ?_ _ _ hwf hu⟩
+  intro s l' hw hl
+  obtain ⟨l'', hu', hlen⟩ := CPowT.unfolds s hw
+  have := Unfolds.functional hl hu'
+  subst this
+  refine ⟨CPowT.cnt s, ?_, by omega⟩
+  obtain ⟨base, idx⟩ := s
+  cases idx <;> rfl
+
+theorem comb_peekNext {α : Type} : PeekNext (Comb.ops (α := α)) := by
+  intro c
+  obtain ⟨base, idx⟩ := c
+  cases idx with
+  | none => rfl
+  | some v =>
+    show Comb.peek ⟨base, some v⟩ = (Comb.next ⟨base, some v⟩).map Prod.fst
+    simp only [Comb.peek, Comb.next]
+    split <;> rfl
+
+theorem comb_unfoldsB {α : Type} (c : Idx α) : ∃ l, UnfoldsB Comb.ops c l := by
+  obtain ⟨l, hu, _⟩ := CombT.unfolds c
+  refine ⟨l, unfoldsB_of_family (o := Comb.ops) (fun _ => True) (fun _ _ _ _ _ => trivial) ?_ _ _ trivial hu⟩
+  intro s l' _ hl
+  obtain ⟨l'', hu', hlen⟩ := CombT.unfolds s
+  have := Unfolds.functional hl hu'
+  subst this
+  refine ⟨CombT.meas s, ?_, hlen⟩
+  obtain ⟨base, idx⟩ := s
+  cases idx <;> rfl
 
 end Noulith.C11
